@@ -2118,3 +2118,22 @@ Proof.
       destruct (run_listeners _ _ _); cbn [wrap] in Hstep; injection Hstep as <- <-; rewrite Hl; exact Ha.
     + injection Hstep as <- <-. exact Ha.
 Qed.
+
+(* registrations, reads and disconnections issue no RPC at all (aborting or not) *)
+Theorem quiet_step le t o sc t' x :
+  step le t o sc = (t', x) ->
+  match o with
+  | ORegister _ | OGet _ _ | OGetSub _ | ODisconnect => rpc_log t' = []
+  | _ => True
+  end.
+Proof.
+  intros Hstep. destruct o as [u|signer loc b delay sig|signer loc|signer|hash txs|]; try exact I.
+  - cbn [step] in Hstep. pose proof (add_update_user_log (set_rpc_log t []) u) as Hl.
+    destruct (gk_add_update_user (set_rpc_log t []) u); cbn [wrap] in Hstep; injection Hstep as <- <-; exact Hl.
+  - destruct (get_unchanged le t sc signer loc) as [r Hr]. rewrite Hr in Hstep. injection Hstep as <- <-. reflexivity.
+  - destruct (getsub_unchanged le t sc signer) as [r Hr]. rewrite Hr in Hstep. injection Hstep as <- <-. reflexivity.
+  - cbn [step] in Hstep. destruct (last_hash (set_rpc_log t [])) as [hash|].
+    + pose proof (disconnect_log hash (gk_height (set_rpc_log t [])) (set_rpc_log t [])) as Hl.
+      destruct (run_listeners _ _ _); cbn [wrap] in Hstep; injection Hstep as <- <-; apply Hl.
+    + injection Hstep as <- <-. reflexivity.
+Qed.
